@@ -371,6 +371,10 @@ class NetworkService(ModelElement):
             raise TopologyException(f'Interface {interface} has more than one peer: {peers}, '
                                     f'this is a model error, unable to proceed.')
 
+        # the peer must be one of our own service ports: never remove a port of another service or node
+        if peers[0].node_id not in self.topo.graph_model.get_all_ns_or_link_connection_points(link_id=self.node_id):
+            raise TopologyException(f'Interface {interface.name} is not connected to network service {self.name}')
+
         self.topo.graph_model.remove_cp_and_links(node_id=peers[0].node_id)
         # remove from interface list as well
         self._interfaces = list(filter((lambda x: x.node_id != peers[0].node_id), self._interfaces))
